@@ -82,7 +82,7 @@ class StateMachine(metaclass=StateMachineMetaclass):
         self._callbacks = CallbacksRegistry()
         self._states_for_instance: Dict[State, State] = {}
 
-        self._listeners: Dict[Any, Any] = {}
+        self._listeners: List[Any] = []
         """Listeners that provides attributes to be used as callbacks."""
 
         if self._abstract:
@@ -142,9 +142,9 @@ class StateMachine(metaclass=StateMachineMetaclass):
         self._callbacks = CallbacksRegistry()
         self._states_for_instance: Dict[State, State] = {}
 
-        self._listeners: Dict[Any, Any] = {}
+        self._listeners: List[Any] = []
 
-        self._register_callbacks(list(listeners.keys()))
+        self._register_callbacks(list(listeners))
         self._engine = self._get_engine(rtc)
         self._engine.start()
 
@@ -172,6 +172,12 @@ class StateMachine(metaclass=StateMachineMetaclass):
                     continue
                 setattr(target, event, trigger)
 
+    def _remember_listeners(self, listeners):
+        # by identity: listeners may compare equal to each other, or be unhashable
+        for listener in listeners:
+            if not any(listener is known for known in self._listeners):
+                self._listeners.append(listener)
+
     def _add_listener(self, listeners: "Listeners", allowed_references: SpecReference = SPECS_ALL):
         registry = self._callbacks
         for visited in iterate_states_and_transitions(self.states):
@@ -184,7 +190,7 @@ class StateMachine(metaclass=StateMachineMetaclass):
         return self
 
     def _register_callbacks(self, listeners: List[object]):
-        self._listeners.update({listener: None for listener in listeners})
+        self._remember_listeners(listeners)
         self._add_listener(
             Listeners.from_listeners(
                 (
@@ -225,7 +231,7 @@ class StateMachine(metaclass=StateMachineMetaclass):
 
             :ref:`listeners`.
         """
-        self._listeners.update({o: None for o in listeners})
+        self._remember_listeners(listeners)
         return self._add_listener(
             Listeners.from_listeners(Listener.from_obj(o) for o in listeners),
             allowed_references=SPECS_SAFE,
